@@ -252,6 +252,22 @@ UNITS = {
             I(MAP, r'^impl < K , V , S , A > PartialEq for HashMap < K , V , S , A > where', 'eq', impl='HashMap<K, V>|<K, V: PartialEq>', key='HashMap::eq'),
         ],
     ),
+    # C20: serde visitors over an arbitrary input
+    'serde': dict(
+        widths=[16],
+        prelude='preludes/serde.rs',
+        specs='contracts/serde.vspec',
+        lemmas=['lemmas/serde_lemmas.rs'],
+        extra='serde_rules',
+        items=[
+            I(SERDE, r'^mod size_hint$', 'cautious'),
+            dict(I(SERDE, r"^impl < 'de , K , V , S , A > Visitor < 'de > for MapVisitor < K , V , S , A > where", 'visit_map', impl="MapVisitor<K, V>|<'de, K, V>", key='MapVisitor::visit_map'), value_type=['HashMap', '<', 'K', ',', 'V', '>']),
+            dict(I(SERDE, r"^impl < 'de , T , S , A > Visitor < 'de > for SeqVisitor < T , S , A > where", 'visit_seq', impl="SeqVisitor<T>|<'de, T>", key='SeqVisitor::visit_seq'), value_type=['HashSet', '<', 'T', '>']),
+            dict(I(SERDE, r"^impl < 'de , T , S , A > Deserialize < 'de > for HashSet < T , S , A > where", 'deserialize_in_place', key='SeqInPlaceVisitor::visit_seq'),
+                 closure="fn visit_seq<M>(self, mut seq: M) -> Result<Self::Value, M::Error> where M: SeqAccess<'de>, {",
+                 new_sig="fn visit_seq_in_place<'de, T, M: SeqAccess<'de, T>>(place: &mut HashSet<T>, mut seq: M) -> Result<(), M::Error>"),
+        ],
+    ),
 }
 
 
@@ -1011,6 +1027,42 @@ def glue_rules(toks, i, out, hit):
     return guard_rules(toks, i, out, hit)
 
 
+def serde_rules(toks, i, out, hit):
+    """unit `serde`: R16 (by-value `mut` parameters rebound) of unit iter, and
+       R27  `HashMap::with_capacity_and_hasher_in(C, S::default(), A::default())` -> `HashMap::with_capacity_view(C)` (same for HashSet)
+       R28  `Self::Value` -> the visitor's value type; `M: MapAccess<'de>` -> `M: MapAccess<'de, K, V>`, `M: SeqAccess<'de>` -> `M: SeqAccess<'de, T>`"""
+    t = toks[i]
+    n = len(toks)
+    T = extract.T
+
+    def seq(k, *texts):
+        return k + len(texts) <= n and all(toks[k + a].text == x for a, x in enumerate(texts))
+    if t.text in ('HashMap', 'HashSet') and seq(i + 1, ':', ':', 'with_capacity_and_hasher_in', '('):
+        c = extract._find_close(toks, i + 4)
+        args = extract._split_args(toks[i + 5:c])
+        if len(args) != 3 or [x.text for x in args[1]] != ['S', ':', ':', 'default', '(', ')'] or [x.text for x in args[2]] != ['A', ':', ':', 'default', '(', ')']:
+            raise ExtractError('R27: unexpected arguments of with_capacity_and_hasher_in')
+        out.extend([T(t.text, t.gap), T(':', ''), T(':', ''), T('with_capacity_view', ''), T('(', '')] + extract.rewrite(args[0], set(), _HITS, serde_rules) + [T(')', '')])
+        hit('R27_with_capacity_and_default_hasher_to_view')
+        return c + 1
+    if t.text == 'Self' and seq(i + 1, ':', ':', 'Value'):
+        vt = _FLAGS.get('value_type') or []
+        out.extend([T(x, t.gap if k == 0 else '') for k, x in enumerate(vt)])
+        hit('R28_visitor_value_type')
+        return i + 4
+    if t.text in ('MapAccess', 'SeqAccess') and seq(i + 1, '<', "'de", '>'):
+        extra = ['K', ',', 'V'] if t.text == 'MapAccess' else ['T']
+        out.extend([T(t.text, t.gap), T('<', ''), T("'de", '', 'life'), T(',', '')] + [T(x, ' ' if x != ',' else '') for x in extra] + [T('>', '')])
+        hit('R28_access_trait_typed_by_entry')
+        return i + 4
+    # R29: the in-place visitor is a tuple struct around `&mut HashSet`: its field `self.0` is the parameter `place`
+    if t.text == 'self' and seq(i + 1, '.', '0'):
+        out.append(T('place', t.gap))
+        hit('R29_inplace_visitor_field_to_param')
+        return i + 3
+    return iter_rules(toks, i, out, hit)
+
+
 def generate(unit_name, width, outdir):
     u = UNITS[unit_name]
     specs = {}
@@ -1025,6 +1077,7 @@ def generate(unit_name, width, outdir):
     free, impls, meta = [], {}, []
     for it in u['items']:
         spec = specs.get(it['key'])
+        _FLAGS['value_type'] = it.get('value_type')
         if spec is None:
             raise ExtractError('no contract for %s in %s' % (it['key'], u['specs']))
         if it.get('closure'):
